@@ -143,10 +143,16 @@ def check(ctx, replay=None):
     for i in range(24 if th else 4):
         # (the odd-numbered processes look the spellings up in reverse order: what a spelling resolves to must not depend on
         # which lookups came before it in the process)
-        rc, out, err = ctx.run([os.path.join(bindir, "archdump")], input=json.dumps(spellings if i % 2 == 0 else spellings[::-1]), timeout=120)
+        # (processes 2, 3 mod 4 first USE the tables - Tables!Use: compilations with every own and every foreign name for every
+        # architecture - and dump them afterwards: the tables are data, no use of the package changes them)
+        rc, out, err = ctx.run([os.path.join(bindir, "archdump")] + (["-history"] if i % 4 >= 2 else []),
+                               input=json.dumps(spellings if i % 2 == 0 else spellings[::-1]), timeout=300)
         if rc != 0:
             raise vlib.Machinery("archdump failed: " + err[-1000:])
         dumps.append(json.loads(out))
+        if i % 4 >= 2 and dumps[-1].get("uses", 0) < 500:
+            raise vlib.Machinery("archdump -history performed only %s compilations" % dumps[-1].get("uses"))
+    ctx.cov["compilations_before_a_dump"] = sum(d.get("uses", 0) for d in dumps)
     d0 = dumps[0]
     archs = {a["var"]: a for a in d0["arches"]}
     tabled = [v for v, a in archs.items() if a["numbers"]]
@@ -155,53 +161,78 @@ def check(ctx, replay=None):
     viol = []   # (message, witness)
 
     # --- the statement applied to the extracted data (witness search; TLC decides the same predicates below)
+    hist = []   # findings about what a HISTORY does to the answers (compared across dumps; TLC decides the per-table predicates on one dump)
+    for i, d in enumerate(dumps):
+        if d.get("changed"):
+            ctx.note("the tables of a process changed while the package was used (%d entries, e.g. %s); judged through the statement's predicates on the tables as they are afterwards" % (len(d["changed"]), d["changed"][:3]))
     for i, d in enumerate(dumps[1:], 1):
         for a0, a1 in zip(d0["arches"], d["arches"]):
+            if a0["numbers"] != a1["numbers"]:
+                diff = sorted(k for k in set(a0["numbers"]) | set(a1["numbers"]) if a0["numbers"].get(k) != a1["numbers"].get(k))[:5]
+                hist.append(("number lookups of %s differ between two process runs (e.g. %s)" % (a0["var"], diff), {"arch": a0["var"], "numbers": diff}))
             if a0["names"] != a1["names"]:
-                diff = sorted(k for k in a0["names"] if a0["names"].get(k) != a1["names"].get(k))[:5]
-                viol.append(("name lookups of %s differ between two process runs (e.g. %s)" % (a0["var"], diff), {"arch": a0["var"], "names": diff}))
+                diff = sorted(k for k in set(a0["names"]) | set(a1["names"]) if a0["names"].get(k) != a1["names"].get(k))[:5]
+                hist.append(("name lookups of %s differ between two process runs (e.g. %s)" % (a0["var"], diff), {"arch": a0["var"], "names": diff}))
         by_in = {l["in"]: l for l in d["lookups"]}
         for l0 in d0["lookups"]:
             if l0 != by_in.get(l0["in"]):
-                viol.append(("GetInfo(%r) differs between process runs / lookup orders" % l0["in"], {"spelling": l0["in"]}))
-    for v in tabled:
-        a = archs[v]
-        nums = {int(k): n for k, n in a["numbers"].items()}
-        byname = {}
-        for n, name in nums.items():
-            byname.setdefault(name, []).append(n)
-        amb = {k: sorted(x) for k, x in byname.items() if len(x) > 1}
-        if amb:
-            viol.append(("%d names of %s have two numbers (e.g. %s)" % (len(amb), v, sorted(amb.items())[:3]), {"arch": v, "ambiguous": sorted(amb)[:10]}))
-        for n, name in nums.items():
-            if name not in a["names"]:
-                viol.append(("%s: number %d -> %s but the name does not look up" % (v, n, name), {"arch": v, "nr": n}))
-            elif a["names"][name] != n and name not in amb:
-                viol.append(("%s: %d -> %s -> %d" % (v, n, name, a["names"][name]), {"arch": v, "nr": n}))
-        for name, n in a["names"].items():
-            if nums.get(n) != name:
-                viol.append(("%s: %s -> %d -> %s" % (v, name, n, nums.get(n)), {"arch": v, "name": name}))
-        for oname, t in orc.get(v, []):
-            bad = [(s, a["names"][s], t[s]) for s in t if s in a["names"] and a["names"][s] != t[s]]
-            if bad:
-                viol.append(("%s disagrees with %s on %d names (e.g. %s)" % (v, oname, len(bad), bad[:3]), {"arch": v, "oracle": oname, "names": [b[0] for b in bad[:10]]}))
-            common = len([s for s in t if s in a["names"]])
-            ctx.cov["evaluations"] += common
-            if len(t) >= 150 and common < 150:
-                raise vlib.Machinery("oracle %s shares only %d names with table %s" % (oname, common, v))
-            # number -> name direction: notes only (naming conventions differ between sources)
-            inv = {n: s for s, n in t.items()}
-            diffn = [(n, nums[n], inv[n]) for n in nums if n in inv and nums[n] != inv[n] and t.get(nums[n]) != n]
-            if diffn:
-                ctx.note("%s vs %s: %d numbers carry another name (%s)" % (v, oname, len(diffn), diffn[:3]))
-    for v in tabled:
-        nums = {int(k): n for k, n in archs[v]["numbers"].items()}
-        srcs = orc.get(v, [])
-        for n, name in nums.items():
-            listing = [{x: s for s, x in t.items()}.get(n) for _, t in srcs]
-            listing = [x for x in listing if x is not None]
-            if len(listing) >= 2 and len(set(listing)) == 1 and name != listing[0] and not any(name in t for _, t in srcs):
-                viol.append(("%s: number %d is %r in every source that lists it but %r in the table (a name no source knows)" % (v, n, listing[0], name), {"arch": v, "nr": n}))
+                hist.append(("GetInfo(%r) differs between process runs / lookup orders" % l0["in"], {"spelling": l0["in"]}))
+
+    def table_findings(archs, when):
+        viol = []
+        for v in tabled:
+            a = archs[v]
+            nums = {int(k): n for k, n in a["numbers"].items()}
+            byname = {}
+            for n, name in nums.items():
+                byname.setdefault(name, []).append(n)
+            amb = {k: sorted(x) for k, x in byname.items() if len(x) > 1}
+            if amb:
+                viol.append(("%d names of %s have two numbers (e.g. %s)" % (len(amb), v, sorted(amb.items())[:3]), {"arch": v, "ambiguous": sorted(amb)[:10]}))
+            for n, name in nums.items():
+                if name not in a["names"]:
+                    viol.append(("%s: number %d -> %s but the name does not look up" % (v, n, name), {"arch": v, "nr": n}))
+                elif a["names"][name] != n and name not in amb:
+                    viol.append(("%s: %d -> %s -> %d" % (v, n, name, a["names"][name]), {"arch": v, "nr": n}))
+            for name, n in a["names"].items():
+                if nums.get(n) != name:
+                    viol.append(("%s: %s -> %d -> %s" % (v, name, n, nums.get(n)), {"arch": v, "name": name}))
+            for oname, t in orc.get(v, []):
+                bad = [(s, a["names"][s], t[s]) for s in t if s in a["names"] and a["names"][s] != t[s]]
+                if bad:
+                    viol.append(("%s disagrees with %s on %d names (e.g. %s)" % (v, oname, len(bad), bad[:3]), {"arch": v, "oracle": oname, "names": [b[0] for b in bad[:10]]}))
+                common = len([s for s in t if s in a["names"]])
+                ctx.cov["evaluations"] += common
+                if len(t) >= 150 and common < 150:
+                    raise vlib.Machinery("oracle %s shares only %d names with table %s" % (oname, common, v))
+                # number -> name direction: notes only (naming conventions differ between sources)
+                inv = {n: s for s, n in t.items()}
+                diffn = [(n, nums[n], inv[n]) for n in nums if n in inv and nums[n] != inv[n] and t.get(nums[n]) != n]
+                if diffn:
+                    ctx.note("%s vs %s: %d numbers carry another name (%s)" % (v, oname, len(diffn), diffn[:3]))
+        for v in tabled:
+            nums = {int(k): n for k, n in archs[v]["numbers"].items()}
+            srcs = orc.get(v, [])
+            for n, name in nums.items():
+                listing = [{x: s for s, x in t.items()}.get(n) for _, t in srcs]
+                listing = [x for x in listing if x is not None]
+                if len(listing) >= 2 and len(set(listing)) == 1 and name != listing[0] and not any(name in t for _, t in srcs):
+                    viol.append(("%s: number %d is %r in every source that lists it but %r in the table (a name no source knows)" % (v, n, listing[0], name), {"arch": v, "nr": n}))
+        return [(m + when, w) for m, w in viol]
+
+    # the dump TLC evaluates: the first one whose tables break the statement (a dump taken after the tables were used counts like any other:
+    # the lookups the statement speaks about are the ones a process performs, not only the first ones), else the first dump
+    d_eval, viol = d0, []
+    def tables_of(d):
+        return [(a["var"], a["names"], a["numbers"]) for a in d["arches"]]
+    for i, d in enumerate(dumps):
+        if i > 0 and tables_of(d) == tables_of(d0):
+            continue
+        f = table_findings({a["var"]: a for a in d["arches"]}, " [process %d%s]" % (i, ", after %d compilations with own and foreign names" % d["uses"] if d.get("uses") else ""))
+        if f:
+            d_eval, viol = d, f
+            break
+    archs = {a["var"]: a for a in d_eval["arches"]}
     for v, a in archs.items():
         want = aud.get(AUDIT_MACRO[v])
         if want is None:
@@ -290,6 +321,8 @@ GetInfoInv == GetInfoOK
         raise vlib.Machinery("TLC (%s) and the witness search (%d findings) disagree" % (tlc_bad, len(viol)))
     for msg, w in viol:
         ctx.violation(msg, {"witness": w, "tlc_invariant": tlc_bad, "how": "./check C12 --replay <this file> (re-dumps the tables of the current tree)"})
+    for msg, w in hist:
+        ctx.violation(msg, {"witness": w, "how": "./check C12 --replay <this file> (re-dumps the tables of the current tree in fresh processes, half of them after using the tables)"})
     generator(ctx)
     ctx.cov["distinct_nontrivial"] = sum(len(archs[v]["numbers"]) for v in tabled)
     ctx.cov["exhaustive"] = True
